@@ -189,7 +189,11 @@ def main(argv):
                {"op": "set", "k": "k" * 246, "v": b"version", "nr": None}, {"op": "set", "k": "k" * 248, "v": b"version", "nr": None},
                {"op": "set", "k": "k" * 250, "v": b"version", "nr": True}, {"op": "set", "k": "k" * 251, "v": b"version", "nr": True},
                {"op": "set_many", "items": [("a", b"1"), ("k" * 249, b"version")], "nr": None}, {"op": "append", "k": b"k" * 247, "v": b"version", "nr": None},
-               {"op": "delete", "k": "k" * 250, "nr": None}, {"op": "touch", "k": "k" * 247, "e": 1, "nr": None}]
+               {"op": "delete", "k": "k" * 250, "nr": None}, {"op": "touch", "k": "k" * 247, "e": 1, "nr": None},
+               # a number that is not an int where the protocol wants an integer, on a reply-less command: it must be refused before anything is written -
+               # rendered as `60.0` the command line is refused by the server silently and the data block is then answered as a command of its own
+               {"op": "set", "k": "a", "v": b"version", "e": 60.0, "nr": True}, {"op": "touch", "k": "a", "e": 2.0, "nr": True}, {"op": "incr", "k": "a", "d": 1.0, "nr": True},
+               {"op": "flush_all", "d": 0.0, "nr": True}, {"op": "set_many", "items": [("a", b"version")], "e": 30.0, "nr": True}, {"op": "add", "k": "z", "v": b"version", "e": 1e3, "nr": None}]
     for kind in kinds + ["ClientPfx", "PooledPfx", "HashPfx"]:
         for hi, call in enumerate(hostile):
             for chunkmode in ("bytes", "rand"):
